@@ -12,6 +12,10 @@ import itertools
 from mc.lang import qgen
 
 
+def in_seqs_early(A, B):
+    return {"tags": "j.tags()", "parts-pt": "j.parts().Select(lambda p: p.pt())", "other-coll": f"{B}.Select(lambda k: k.pt())"}
+
+
 def queries(backend):
     a = qgen.ALPHA[backend]
     A = f"e.{a.primary}('A')"
@@ -38,6 +42,22 @@ def queries(backend):
             out.append((f"ev-tuple:{sn}", f"ds.Select(lambda e: ({A}.Count(), {seq}.Aggregate({init}, lambda acc, v: {body})))"))
             out.append((f"ev-arith:{sn}", f"ds.Select(lambda e: {seq}.Aggregate({init}, lambda acc, v: {body}) * 2 + 1)"))
             out.append((f"ev-where:{sn}", f"ds.Where(lambda e: {seq}.Aggregate({init}, lambda acc, v: {body}) > 1).Select(lambda e: {A}.Count())"))
+    # ---- compound computed seeds: an EXPRESSION over the result of another loop (not a bare variable, not a literal)
+    seeds = [f"{B}.Count() + 1", f"-{B}.Count()", f"{B}.Select(lambda k: k.pt()).Sum() * 2", f"{B}.Count() + {A}.Count()", f"(1 if {B}.Count() > 0 else 2)",
+             f"abs({B}.Count() - 3)", f"{B}.Count() / 2", "-1", "-0.5", "1 + 2"]
+    for (sn, seq), init, body in itertools.product(ev_seqs.items(), seeds, ["acc + v", "(acc if acc > v else v)", "v", "acc + 1"]):
+        if sn in ("ntrk", "parts-flat"):
+            continue
+        if seq is None:
+            seq = A
+            body = body.replace("v", "v.pt()")
+        out.append((f"ev-seed:{sn}", f"ds.Select(lambda e: {seq}.Aggregate({init}, lambda acc, v: {body}))"))
+        if body == "acc + v":
+            out.append((f"ev-seed:{sn}", f"ds.Select(lambda e: ({seq}.Aggregate({init}, lambda acc, v: {body}), {B}.Count()))"))
+    for (sn, seq), init in itertools.product(in_seqs_early(A, B).items(), ["j.pt() + 1", f"{B}.Count() + j.nTrk()", "j.tags().Count() * 2", "-j.pt()", f"{B}.Count() + 1"]):
+        agg = f"{seq}.Aggregate({init}, lambda acc, v: acc + v)"
+        out.append((f"obj-seed:{sn}", f"ds.Select(lambda e: {A}.Select(lambda j: {agg}))"))
+        out.append((f"obj-seed:{sn}", f"ds.SelectMany(lambda e: {A}).Select(lambda j: {agg})"))
     # ---- per object: the aggregate runs inside the loop over j; initial value / closure from j, from e, from another loop
     in_seqs = {
         "tags": "j.tags()",
